@@ -100,7 +100,7 @@ GhostInit == [q2in |-> <<>>, unacked |-> <<>>, txed |-> <<>>, ackd |-> <<>>, pub
               seen |-> {}, connacks |-> <<>>, discd |-> {}, rm |-> <<>>, tam |-> <<>>, mps |-> <<>>,
               will |-> <<>>, pendw |-> <<>>, nowill |-> {}, willsent |-> {}, aliasOut |-> <<>>, aliasIn |-> <<>>,
               expm |-> <<>>, deadR |-> {}, deadI |-> {}, dsdel |-> <<>>, resentOn |-> {},
-              sdr |-> {}, rdr |-> {}, clob |-> <<>>, wipedw |-> {}, rpi |-> <<>>, subG |-> <<>>, optG |-> <<>>, stq |-> <<>>]
+              sdr |-> {}, rdr |-> {}, clob |-> <<>>, wipedw |-> {}, rpi |-> <<>>, subG |-> <<>>, optG |-> <<>>, stq |-> <<>>, inlG |-> {}]
 
 (* ================================================================== publications of a step *)
 Qos2Open(c, pid) == pid \in Get(g.q2in, c, {})
@@ -498,6 +498,10 @@ DeferredLost(i, c) ==
                                     /\ ~(\E q \in ToSet(PktsTo(e, c)) : q.t = PUBLISH /\ q.pid = r.pid)}
 
 WillDelivered(e, m) == \E d \in AllClientIds(e) : \E q \in ToSet(PktsTo(e, d)) : q.t = PUBLISH /\ q.m = m
+InlNext(cur, e) ==
+    IF e.ev = "inline_subscribe" /\ e.err = "" THEN cur \cup {<<e.a.inline_id, e.a.t>>}
+    ELSE IF e.ev = "inline_unsubscribe" /\ e.err = "" THEN cur \ {<<e.a.inline_id, e.a.t>>}
+    ELSE cur
 GhostNextOf(i) ==
     LET e == Trace[i] IN
     IF e.ev = "Config" THEN GhostInit ELSE
@@ -614,6 +618,8 @@ GhostNextOf(i) ==
                           ELSE base[fs]]],
         \* the filters the CURRENT session of a client holds according to the protocol history (granted SUBSCRIBEs minus
         \* UNSUBSCRIBEs since the session began) - deliberately not read from the broker's topic index
+        \* the inline subscriptions according to the API history: <<identifier, filter>>
+        inlG |-> InlNext(g.inlG, e),
         subG |-> [c0 \in ids |->
                     LET base == IF SessionEndsIn(i, c0) THEN {} ELSE Get(g.subG, c0, {})
                         sa == SelectSeq(OutOf(e, e.k), LAMBDA q : q.t = SUBACK) IN
@@ -1015,6 +1021,13 @@ J_C40(i) ==
          \o ForAll(want \ got, LAMBDA m : Cmp("C40.inline-retained-missing", "inline", m, e.a.inline_id))
          \o ForAll(got \ want, LAMBDA m : Cmp("C40.inline-retained-unexpected", "inline", m, e.a.inline_id))
          \o If(~(\E s \in Subs(e.st) : s.kind = "inline" /\ s.id = e.a.inline_id /\ s.f = e.a.t), Cmp("C40.inline-subscribe-not-registered", "inline", JoinL(e.a.t), e.a.inline_id))
+      ELSE <<>>,
+      \* the inline subscriptions in the index are exactly those the API history made (whatever clients do to the same filters)
+      IF e.ev # "Config" THEN
+         LET have == {<<s.id, s.f>> : s \in {x \in Subs(e.st) : x.kind = "inline"}}
+             want == InlNext(g.inlG, e) IN
+         ForAll(want \ have, LAMBDA x : Cmp("C40.inline-subscription-lost", "inline", JoinL(x[2]), x[1]))
+         \o ForAll(have \ want, LAMBDA x : Cmp("C40.inline-subscription-not-from-api", "inline", JoinL(x[2]), x[1]))
       ELSE <<>>,
       \* unsubscribing one inline subscription removes that identifier on that filter only
       IF e.ev = "inline_unsubscribe" /\ e.err = "" THEN
